@@ -4,7 +4,8 @@ from .explore import explore
 from ..mirdump import mir_path
 mod, fn = sys.argv[1], sys.argv[2]
 budget = float(sys.argv[3]) if len(sys.argv) > 3 else 300
-s = explore(mir_path(), "/repo/core", ("verifkit.mirsym.drivers." + mod, fn), time_budget_s=budget)
+from ..common import REPO as _REPO
+s = explore(mir_path(), _REPO + "/core", ("verifkit.mirsym.drivers." + mod, fn), time_budget_s=budget)
 print({k: v for k, v in s.items() if k in ("paths", "ok", "aborted", "panic", "unsupported", "crash", "queries", "checks", "complete", "wall_s", "steps")})
 print("solver_s", round(s["solver_s"], 2))
 seen = set()
